@@ -30,10 +30,11 @@ type Conn struct {
 	wq         chan []byte // write queue: one writer goroutine issues the Write calls in order
 	writerDone chan struct{}
 	closed     bool
-	ReadHook   func(n int)  // called by the reader goroutine after each read
-	readChunk  atomic.Int64 // size of the reader's buffer (0 = 64 KiB); small values make a slow consumer
-	readDelay  atomic.Int64 // nanoseconds to sleep after each read (fake time inside a bubble)
-	Split      Splitter     // optional: how Send / SendParts cut their bytes into separate Write calls
+	ReadHook   func(n int)   // called by the reader goroutine after each read
+	readChunk  atomic.Int64  // size of the reader's buffer (0 = 64 KiB); small values make a slow consumer
+	readDelay  atomic.Int64  // nanoseconds to sleep after each read (fake time inside a bubble)
+	Split      Splitter      // optional: how Send / SendParts cut their bytes into separate Write calls
+	SegGap     time.Duration // optional: (fake) time that passes between two segments of SendSegments - a slow writer
 
 	// protocol state (control connections)
 	nextID uint32
@@ -182,6 +183,10 @@ func (c *Conn) SendSegments(b []byte, cuts []int) {
 		}
 		c.SendAsync(b[prev:k])
 		prev = k
+		if c.SegGap > 0 {
+			Quiesce()
+			time.Sleep(c.SegGap)
+		}
 	}
 	c.SendAsync(b[prev:])
 	Quiesce()
